@@ -2,6 +2,7 @@ package balancer
 
 import (
 	"context"
+	"sync"
 
 	"github.com/thushan/olla/internal/core/domain"
 	"github.com/thushan/olla/internal/zzverif/gosym"
@@ -69,25 +70,35 @@ func VerifRRConcurrent() {
 	for i := range eps {
 		eps[i] = &domain.Endpoint{Name: string(rune('a' + i)), Status: domain.StatusHealthy}
 	}
-	counts := make([]int, n)
-	done := 0
+	picks := make([][]int, G) // one private slot per goroutine: no shared writes in the harness
+	var wg sync.WaitGroup
+	wg.Add(G)
 	for g := 0; g < G; g++ {
+		g := g
 		go func() {
+			defer wg.Done()
 			for k := 0; k < K; k++ {
 				e, err := sel.Select(context.Background(), eps)
 				if err == nil {
 					for i, x := range eps {
 						if x == e {
-							counts[i]++
+							picks[g] = append(picks[g], i)
 						}
 					}
 				}
 			}
-			done++
 		}()
 	}
-	gosym.RunPending()
-	gosym.Assert(done == G, "all selectors finished")
+	wg.Wait()
+	counts := make([]int, n)
+	total := 0
+	for _, ps := range picks {
+		for _, i := range ps {
+			counts[i]++
+			total++
+		}
+	}
+	gosym.Assert(total == G*K, "all selections succeeded")
 	for i := range counts {
 		gosym.Assert(counts[i]*n == G*K, "round-robin under concurrency: each endpoint gets exactly its share of G*K selections")
 	}
